@@ -513,6 +513,7 @@ Proof.
     rewrite aset_keys_in; [exact Hv | eapply alookup_some_key; eauto].
   - (* Observe *) unfold coh. cbn. repeat split; auto; apply Ht.
   - (* Restart *) apply (coh_restart {| db := d; mem := m; budgets := bs |}); assumption.
+  - (* Failed *) unfold coh. cbn. repeat split; auto; apply Ht.
 Qed.
 
 Lemma runs_coh : forall l s, coh s -> benign_run s l = true -> coh (runs s l).
